@@ -577,16 +577,26 @@ class t2listing(object):
             self.skipto('=====',0)
             self.skip_to_nonblank()
             tname = 'element'
-            nelt_tables = 0
+            self._nelt_tables = 0
         else: tname = last_tablename
+        # number of element tables passed so far at this time (not the same as the
+        # number of element tables asked for, if other tables come in between):
+        nelt_tables = self._nelt_tables
+        # if continuing from a previous table, we are already among its rows:
+        in_rows = last_tablename is not None
         while tname != tablename:
-            if tname == 'primary': keyword='_____'
-            else: keyword = '@@@@@'
-            self.skipto(keyword,0)
+            if tname == 'primary':
+                # the primary table ends with the '_____' line that also starts
+                # the next table (found by next_table_TOUGHplus()), so from its
+                # header only the '_____' line under the header has to be skipped:
+                if not in_rows: self.skipto('_____',0)
+            else: self.skipto('@@@@@',0)
+            in_rows = False
             tname = self.next_table_TOUGHplus()
             if tname == 'element':
                 nelt_tables += 1
                 tname += str(nelt_tables)
+        self._nelt_tables = nelt_tables
 
     def start_of_values(self, line, columns):
         """Returns start index of values in a table line.  Characters before
